@@ -43,6 +43,8 @@ def run(F, res, tier):
     seen = F.reachable_from(ents)
     res.analysed.update({"entry_points": len(ents), "reachable_functions": len(seen)})
     res.floor("functions reachable from the queries", len(seen), 800)
+    from lib.inventory import Inventory
+    INV = Inventory(F, reviewed, "Q1/")
     PR = pcache.results(F)
     parser_ok = not PR["panic_sites"] and not PR["unknown_calls"]
     n = 0
@@ -67,7 +69,7 @@ def run(F, res, tier):
             rv = RP_lookup(reviewed, "Q1/" + full, FL.guard_signature(F, f, b, defs))
             if rv:
                 guards = FL.guard_signature(F, f, b, defs)
-                if rv.get("guards", []) == guards:
+                if set(rv.get("guards", [])) <= set(guards):
                     res.ob("Q1", full, desc, True, where=f.loc(ln), how="reviewed: %s [guards: %s]" % (rv["reason"], guards), reviewed=True)
                 else:
                     res.ob("Q1", full, desc, False, where=f.loc(ln),
@@ -75,6 +77,11 @@ def run(F, res, tier):
                            % (guards, rv.get("guards", []), rv["reason"]))
                 continue
             path = " <- ".join(x.rsplit("::", 1)[-1] for x in reversed(F.path_to(seen, p)[-4:]))
+            mv, mv_from = INV.moved(f, b, key.rsplit("/", 1)[0], FL.guard_signature(F, f, b, defs))
+            if mv:
+                res.ob("Q1", full, desc, True, where=f.loc(ln), reviewed=True,
+                       how="reviewed in %s before the code was moved here (every recorded condition still holds here or at each call of this function): %s" % (mv_from.rsplit("::", 1)[-1], mv["reason"]))
+                continue
             res.ob("Q1", full, desc, False, where=f.loc(ln),
                    how="panic-capable construct reachable from an IDE query (%s) and neither discharged nor reviewed" % path)
     res.floor("panic-capable sites reachable from the queries", n, 150)
